@@ -255,9 +255,16 @@ fn main() {
     let mut c = base.clone();
     c.fontinfo.push(("openTypeNameRecords".into(), "<array><dict><key>nameID</key><integer>256</integer><key>platformID</key><integer>3</integer><key>encodingID</key><integer>1</integer><key>languageID</key><integer>1033</integer><key>string</key><string>Source 256</string></dict></array>".into()));
     show(&c, "source name record 256", 12);
+    let common = "feature ss01 { featureNames { name \"Alt a\"; name 1 \"Alt a mac\"; }; sub a by a.alt; } ss01;\nfeature cv01 { cvParameters { FeatUILabelNameID { name \"CV label\"; }; ParamUILabelNameID { name \"P1\"; }; ParamUILabelNameID { name \"P2\"; }; Character 0x61; }; sub a by a.alt; } cv01;\n";
     let mut c = base.clone();
-    c.fea = Some("feature ss01 { featureNames { name \"Alt a\"; name 1 \"Alt a mac\"; }; sub a by a.alt; } ss01;\nfeature cv01 { cvParameters { FeatUILabelNameID { name \"CV label\"; }; ParamUILabelNameID { name \"P1\"; }; ParamUILabelNameID { name \"P2\"; }; Character 0x61; }; sub a by a.alt; } cv01;\ntable STAT { ElidedFallbackNameID 2; DesignAxis wght 0 { name \"Weight\"; }; AxisValue { location wght 400; name \"Regular\"; flag ElidableAxisValueName; } AxisValue { location wght 700; name \"Bold\"; } } STAT;\ntable name { nameid 9 \"Designer\"; nameid 300 \"Three hundred\"; } name;\n".into());
-    show(&c, "fea names + STAT elided id 2", 2);
+    c.fea = Some(format!("{common}table STAT {{ ElidedFallbackName {{ name \"Regular\"; }}; DesignAxis wght 0 {{ name \"Weight\"; }}; AxisValue {{ location wght 400; name \"Regular\"; flag ElidableAxisValueName; }}; AxisValue {{ location wght 700; name \"Bold\"; }}; }} STAT;\ntable name {{ nameid 9 \"Designer\"; nameid 300 \"Three hundred\"; }} name;\n"));
+    show(&c, "fea names + STAT elided name", 2);
+    let mut c = base.clone();
+    c.fea = Some(format!("{common}table name {{ nameid 2 \"Regular\"; nameid 9 \"Designer\"; }} name;\ntable STAT {{ ElidedFallbackNameID 2; DesignAxis wght 0 {{ name \"Weight\"; }}; }} STAT;\n"));
+    show(&c, "fea names + STAT elided id 2 + name 2 in fea", 2);
+    let mut c = base.clone();
+    c.fea = Some("feature size { parameters 10.0 3 80 139; sizemenuname \"Win Text\"; sizemenuname 1 \"Mac Text\"; } size;\n".to_string());
+    show(&c, "size feature", 1);
     let mut c = base.clone();
     c.fea = Some("feature ss01 { featureNames { name \"\"; }; sub a by a.alt; } ss01;\nfeature ss02 { featureNames { name \"Second\"; }; sub a by a.alt; } ss02;\n".into());
     show(&c, "fea empty name", 2);
